@@ -23,6 +23,9 @@ func genC09(r *simrt.Rand, tier string) *simrt.Plan {
 	if r.Bool(0.2) {
 		return genC09Keys(r)
 	}
+	if m := simrt.Mode("C09", 3); m != nil && r.Bool(0.12) {
+		return m.Gen(r, tier) // two clients: bulk value imports and single writes on one int fragment
+	}
 	if m := simrt.Mode("C09", 2); m != nil && r.Bool(0.3) {
 		return m.Gen(r, tier) // whole-node crash images (harness in the external test package)
 	}
